@@ -56,3 +56,131 @@ Lemma split_sample :
   /\ no_tab (line_text w_line_lead w_line_a0 w_line_rest w_line_trail) = true
   /\ length (spec_words (line_text w_line_lead w_line_a0 w_line_rest w_line_trail)) = 4%nat.
 Proof. repeat split; reflexivity. Qed.
+
+(* ---------- a final unclosed quote: white space after it does not split ---------- *)
+Lemma lex_tail_gen rest : forall final tsf,
+  forallb item_ok rest = true -> starts_ws final = true -> lex final = LexOk tsf ->
+  lex (tail_text rest final) = LexOk (flat_map (fun it => [fst it; atom_text (snd it)]) rest ++ tsf).
+Proof.
+  induction rest as [|[sep a] rest IH]; intros final tsf Hr Hf Hl.
+  - unfold tail_text. simpl. exact Hl.
+  - simpl in Hr. apply andb_true_iff in Hr as [Hi Hr]. unfold item_ok in Hi. simpl in Hi.
+    apply andb_true_iff in Hi as [Hs Ha]. unfold sep_ok in Hs. apply andb_true_iff in Hs as [Hn Hw].
+    assert (Hst : starts_ws (tail_text rest final) = true).
+    { unfold tail_text. destruct rest as [|[sep' a'] rest']; simpl; [exact Hf|].
+      simpl in Hr. apply andb_true_iff in Hr as [Hi' _]. unfold item_ok in Hi'. simpl in Hi'.
+      apply andb_true_iff in Hi' as [Hs' _]. rewrite <- !app_assoc. apply sep_starts_ws, Hs'. }
+    assert (E : tail_text ((sep, a) :: rest) final = sep ++ atom_text a ++ tail_text rest final).
+    { unfold tail_text. simpl. rewrite <- !app_assoc. reflexivity. }
+    rewrite E.
+    rewrite (lex_cons _ sep (atom_text a ++ tail_text rest final))
+      by (apply mf_ws; auto using atom_stops_ws).
+    rewrite (lex_cons _ (atom_text a) (tail_text rest final)) by (apply mf_atom; assumption).
+    rewrite (IH final tsf Hr Hf Hl). reflexivity.
+Qed.
+
+Lemma spec_tail_gen rest : forall final,
+  forallb item_ok rest = true -> starts_ws final = true ->
+  spec_words (tail_text rest final) = map (fun it => atom_text (snd it)) rest ++ spec_words final.
+Proof.
+  induction rest as [|[sep a] rest IH]; intros final Hr Hf.
+  - reflexivity.
+  - simpl in Hr. apply andb_true_iff in Hr as [Hi Hr]. unfold item_ok in Hi. simpl in Hi.
+    apply andb_true_iff in Hi as [Hs Ha]. unfold sep_ok in Hs. apply andb_true_iff in Hs as [_ Hw].
+    assert (Hst : starts_ws (tail_text rest final) = true).
+    { unfold tail_text. destruct rest as [|[sep' a'] rest']; simpl; [exact Hf|].
+      simpl in Hr. apply andb_true_iff in Hr as [Hi' _]. unfold item_ok in Hi'. simpl in Hi'.
+      apply andb_true_iff in Hi' as [Hs' _]. rewrite <- !app_assoc. apply sep_starts_ws, Hs'. }
+    assert (E : tail_text ((sep, a) :: rest) final = sep ++ atom_text a ++ tail_text rest final).
+    { unfold tail_text. simpl. rewrite <- !app_assoc. reflexivity. }
+    rewrite E. unfold spec_words at 1. rewrite spec_ws_run by exact Hw.
+    rewrite spec_atom by exact Ha. rewrite spec_flush_tail by exact Hst.
+    rewrite rev_involutive, IH by assumption. reflexivity.
+Qed.
+
+Lemma spec_open_body q b : forall cur,
+  in_chars q b = false -> spec_go (Some q) (Some cur) b = [rev (rev b ++ cur)].
+Proof.
+  induction b as [|c b IH]; intros cur H; [reflexivity|].
+  unfold in_chars in H. simpl in H. apply orb_false_iff in H as [Hc Hb].
+  cbn [spec_go]. rewrite N.eqb_sym, Hc. simpl push. rewrite (IH _ Hb). simpl.
+  rewrite <- app_assoc. reflexivity.
+Qed.
+
+Lemma unquote_open q b : in_chars q b = false -> unquote (q :: b) = q :: b.
+Proof.
+  intros H. unfold unquote. destruct b as [|d r]; [reflexivity|].
+  destruct (in_chars q QUOTES); [|reflexivity]. cbn [andb].
+  destruct (q =? last (d :: r) 0) eqn:E; [|reflexivity].
+  apply N.eqb_eq in E. exfalso. apply in_chars_false in H. apply H. rewrite E.
+  destruct (exists_last (l := d :: r)) as [l' [x Hx]]; [discriminate|].
+  rewrite Hx, last_last. apply in_or_app. right. left. reflexivity.
+Qed.
+
+Lemma split_unclosed kt lead a0 rest sep q body :
+  line_ok lead a0 rest [] = true -> sep_ok sep = true -> is_quote q = true -> in_chars q body = false ->
+  let line := lead ++ atom_text a0 ++ tail_text rest (sep ++ q :: body) in
+  kt = true \/ no_tab line = true ->
+  exists parts,
+    parse_partial kt line = PPOk parts
+    /\ nonspace_values parts = spec_words line
+    /\ nonspace_values parts = atom_text a0 :: map (fun it => atom_text (snd it)) rest ++ [q :: body]
+    /\ execute_call kt line
+       = CallStrings (atom_value a0) (map (fun it => atom_value (snd it)) rest ++ [q :: body]).
+Proof.
+  intros H Hs Hq Hb line Hk. unfold line_ok in H. apply andb_true_iff in H as [H _].
+  apply andb_true_iff in H as [H Hr]. apply andb_true_iff in H as [Hl Ha].
+  pose proof Hs as Hs0. unfold sep_ok in Hs. apply andb_true_iff in Hs as [Hn Hw].
+  assert (Hf : starts_ws (sep ++ q :: body) = true) by (apply sep_starts_ws; exact Hs0).
+  assert (Lf : lex (sep ++ q :: body) = LexOk [sep; q :: body]).
+  { rewrite (lex_cons _ sep (q :: body)).
+    2:{ apply mf_ws; auto. simpl. unfold p_ws. unfold is_quote in Hq. rewrite (quote_not_ws q Hq). reflexivity. }
+    rewrite (lex_cons (q :: body) (q :: body) []) by (apply mf_quoted_open; assumption). reflexivity. }
+  pose proof (lex_tail_gen rest _ _ Hr Hf Lf) as Lt.
+  assert (Hst : starts_ws (tail_text rest (sep ++ q :: body)) = true).
+  { unfold tail_text. destruct rest as [|[sep' a'] rest']; simpl; [exact Hf|].
+    simpl in Hr. apply andb_true_iff in Hr as [Hi' _]. unfold item_ok in Hi'. simpl in Hi'.
+    apply andb_true_iff in Hi' as [Hs' _]. rewrite <- !app_assoc. apply sep_starts_ws, Hs'. }
+  set (ts := flat_map (fun it => [fst it; atom_text (snd it)]) rest ++ [sep; q :: body]) in *.
+  assert (Fq : nonsp (q :: body) = true).
+  { unfold nonsp, isspace. simpl. rewrite (quote_not_uspace q Hq). reflexivity. }
+  assert (Ft : filter nonsp ts = map (fun it => atom_text (snd it)) rest ++ [q :: body]).
+  { unfold ts. rewrite filter_app. f_equal.
+    - clear -Hr. induction rest as [|[s a] rest IH]; [reflexivity|]. simpl in *.
+      apply andb_true_iff in Hr as [Hi Hr]. unfold item_ok in Hi. simpl in Hi.
+      apply andb_true_iff in Hi as [Hs Ha]. unfold sep_ok in Hs. apply andb_true_iff in Hs as [Hn Hw].
+      unfold nonsp at 1. rewrite (ws_isspace s Hn Hw). simpl.
+      rewrite (atom_text_nonsp a Ha), (IH Hr). reflexivity.
+    - simpl. unfold nonsp at 1. rewrite (ws_isspace sep Hn Hw). simpl. rewrite Fq. reflexivity. }
+  assert (L0 : lex (atom_text a0 ++ tail_text rest (sep ++ q :: body)) = LexOk (atom_text a0 :: ts)).
+  { rewrite (lex_cons _ (atom_text a0) (tail_text rest (sep ++ q :: body))) by (apply mf_atom; assumption).
+    rewrite Lt. reflexivity. }
+  assert (L : exists tl, lex line = LexOk tl /\ tl <> [] /\ filter nonsp tl = atom_text a0 :: filter nonsp ts).
+  { unfold line. destruct lead as [|c l].
+    - exists (atom_text a0 :: ts). simpl app. split; [exact L0|]. split; [discriminate|].
+      simpl. rewrite (atom_text_nonsp a0 Ha). reflexivity.
+    - exists ((c :: l) :: atom_text a0 :: ts). split; [|split; [discriminate|]].
+      + rewrite (lex_cons _ (c :: l) (atom_text a0 ++ tail_text rest (sep ++ q :: body)))
+          by (apply mf_ws; auto using atom_stops_ws).
+        rewrite L0. reflexivity.
+      + simpl. unfold nonsp at 1. rewrite (ws_isspace (c :: l)) by auto. simpl.
+        rewrite (atom_text_nonsp a0 Ha). reflexivity. }
+  destruct L as [tl [L1 [L2 L3]]].
+  assert (P : parse_string kt line = LexOk tl) by (rewrite parse_string_no_tab by exact Hk; exact L1).
+  assert (S : spec_words line = atom_text a0 :: map (fun it => atom_text (snd it)) rest ++ [q :: body]).
+  { unfold line, spec_words. rewrite spec_ws_run by exact Hl. rewrite spec_atom by exact Ha.
+    rewrite spec_flush_tail by exact Hst. rewrite rev_involutive. f_equal.
+    rewrite spec_tail_gen by assumption. f_equal.
+    unfold spec_words. rewrite spec_ws_run by exact Hw. cbn [spec_go].
+    unfold is_quote in Hq. rewrite (quote_not_ws q Hq), Hq. simpl push.
+    rewrite (spec_open_body q body [q] Hb). rewrite rev_app_distr, rev_involutive. reflexivity. }
+  exists (map (fun part => (part, isspace part)) tl). split; [|split; [|split]].
+  - unfold parse_partial. rewrite P. reflexivity.
+  - rewrite nonspace_values_filter, L3, Ft, S. reflexivity.
+  - rewrite nonspace_values_filter, L3, Ft. reflexivity.
+  - rewrite (execute_call_lexed kt _ tl P L2), L3, Ft. simpl.
+    rewrite (unquote_atom a0 Ha). f_equal. rewrite map_app. cbn [map]. rewrite (unquote_open q body Hb). f_equal.
+    clear -Hr. induction rest as [|[s a] rest IH]; [reflexivity|].
+    simpl in *. apply andb_true_iff in Hr as [Hi Hr]. unfold item_ok in Hi. simpl in Hi.
+    apply andb_true_iff in Hi as [_ Ha]. rewrite (unquote_atom a Ha), (IH Hr). reflexivity.
+Qed.
